@@ -40,4 +40,17 @@ NearReason(src, out, near, p) ==
   ELSE IF \E i \in 1..Len(src) : out[i] < 0 \/ out[i] > MaxVal(p) THEN "out of range"
   ELSE IF \E i \in 1..Len(src) : Abs(out[i] - src[i]) > near THEN "bound exceeded"
   ELSE "ok"
+
+(***************************************************************************)
+(* T.800 A.6.1: number of decomposition levels declared by the COD marker  *)
+(* of a codestream whose first bytes are h (marker-segment walk from SOC). *)
+(* -1 when h is not a JPEG 2000 main header or COD lies beyond h.          *)
+(***************************************************************************)
+RECURSIVE CodWalk(_, _)
+CodWalk(h, pos) ==     \* pos: 1-based index of a marker (FF xx)
+  IF pos + 3 > Len(h) \/ h[pos] # 255 THEN -1
+  ELSE IF h[pos + 1] = 82 THEN (IF pos + 9 <= Len(h) THEN h[pos + 9] ELSE -1)
+  ELSE IF h[pos + 1] = 144 \/ h[pos + 1] = 147 THEN -1         \* SOT / SOD: main header over
+  ELSE CodWalk(h, pos + 2 + h[pos + 2] * 256 + h[pos + 3])
+J2kLevels(h) == IF Len(h) >= 4 /\ h[1] = 255 /\ h[2] = 79 THEN CodWalk(h, 3) ELSE -1
 =============================================================================
